@@ -20,6 +20,7 @@
     An expansion error ends a non-interactive shell (or the subshell it happens in).
 -/
 import YashModel.Arith.Model
+import YashModel.Arith.Unicode
 namespace YashModel.Arith
 open YashModel.Generated.ArithTables
 
@@ -31,6 +32,8 @@ open YashModel.Generated.ArithTables
     from the message.  (`modelPanic` is never produced: `evalStr_never_panics`.) -/
 inductive ShErr where
   | syntax (e : SynErr)
+  /-- `SyntaxError::TokenError(kind)`: `expandArith` names the kind from the expanded text (`refineTokenErr`) -/
+  | token (k : TokErr)
   | portability
   | eval (e : EvalErr)
   | unsetParameter
@@ -334,6 +337,15 @@ def substText : Nat → Store → Nat → List Char → Except ShErr (List Char 
       | none => if st.nounset then .error .unsetParameter else substText f st status after
   | f + 1, st, status, c :: rest => (substText f st status rest).map fun (t, st2, s2) => (c :: t, st2, s2)
 
+/-- the kind of a token error, read off the expanded text (`firstTokenErrU`, no non-ASCII alphanumerics in
+    the shell leg); the `none` arm is dead (`token_error_has_a_kind`) -/
+def refineTokenErr (t : List Char) : ShErr → ShErr
+  | .syntax .tokenError =>
+    match firstTokenErrU [] (t.length + 1) t with
+    | some k => .token k
+    | none => .syntax .tokenError
+  | e => e
+
 /-- `initial::arith::expand`: expand the text, evaluate it with the shell's environment -/
 def expandArith : Nat → Store → Nat → List Char → Except ShErr (Int × Store × Nat)
   | 0, _, _, _ => .error .modelPanic
@@ -342,7 +354,7 @@ def expandArith : Nat → Store → Nat → List Char → Except ShErr (Int × S
     | .error e => .error e
     | .ok (t, st1, status1) =>
       match evalStrG shellI st1.portable t st1 with
-      | .error e => .error e
+      | .error e => .error (refineTokenErr t e)
       | .ok (v, st2) => .ok (v, st2, status1)
 end
 
